@@ -115,7 +115,7 @@ fn btree_for_each_mut_until<K, V, F: FnMut(&K, &mut V) -> bool>(m: &mut BTreeMap
 fn vec_eq_slice(a: &Vec<u8>, b: &[u8]) -> (r: bool) ensures r == (a@ == b@) { *a == *b }
 // Vec::retain keeps, in order, exactly the elements the predicate accepts
 pub assume_specification<T, A: core::alloc::Allocator, F: FnMut(&T) -> bool> [Vec::<T, A>::retain] (v: &mut Vec<T, A>, f: F)
-    requires forall|x: &T| call_requires(f, (x,)),
+    requires forall|i: int| 0 <= i < old(v)@.len() ==> call_requires(f, (&#[trigger] old(v)@[i],)),
     ensures exists|p: spec_fn(T) -> bool| #[trigger] old(v)@.filter(p) == final(v)@
         && forall|i: int| 0 <= i < old(v)@.len() ==> ((p(#[trigger] old(v)@[i]) ==> call_ensures(f, (&old(v)@[i],), true)) && (!p(old(v)@[i]) ==> call_ensures(f, (&old(v)@[i],), false)));
 
@@ -176,7 +176,7 @@ proof fn lemma_filter_ext<T>(s: Seq<T>, p: spec_fn(T) -> bool, q: spec_fn(T) -> 
 // filtering keeps a subsequence: distinct endpoints stay distinct
 proof fn lemma_filter_distinct<E: Display>(s: Seq<Observer<E>>, p: spec_fn(Observer<E>) -> bool)
     requires distinct_eps(s)
-    ensures distinct_eps(s.filter(p)), forall|i: int| 0 <= i < s.filter(p).len() ==> exists|j: int| 0 <= j < s.len() && s[j] == #[trigger] s.filter(p)[i]
+    ensures distinct_eps(s.filter(p)), forall|i: int| 0 <= i < s.filter(p).len() ==> p(#[trigger] s.filter(p)[i]) && exists|j: int| 0 <= j < s.len() && s[j] == s.filter(p)[i]
     decreases s.len()
 {
     reveal(Seq::filter);
@@ -185,8 +185,8 @@ proof fn lemma_filter_distinct<E: Display>(s: Seq<Observer<E>>, p: spec_fn(Obser
         assert(distinct_eps(t)) by { assert forall|i: int, j: int| 0 <= i < j < t.len() implies (#[trigger] t[i]).endpoint != (#[trigger] t[j]).endpoint by { assert(s[i].endpoint != s[j].endpoint); } }
         lemma_filter_distinct(t, p);
         let f = s.filter(p); let ft = t.filter(p);
-        assert forall|i: int| 0 <= i < f.len() implies exists|j: int| 0 <= j < s.len() && s[j] == #[trigger] f[i] by {
-            if i < ft.len() { let j = choose|j: int| 0 <= j < t.len() && t[j] == ft[i]; assert(s[j] == f[i]); }
+        assert forall|i: int| 0 <= i < f.len() implies p(#[trigger] f[i]) && exists|j: int| 0 <= j < s.len() && s[j] == f[i] by {
+            if i < ft.len() { assert(p(ft[i])); let j = choose|j: int| 0 <= j < t.len() && t[j] == ft[i]; assert(s[j] == f[i]); }
             else { assert(s[s.len() - 1] == f[i]); }
         }
         if p(s.last()) {
@@ -211,9 +211,12 @@ pub open spec fn distinct_eps<E: Display>(s: Seq<Observer<E>>) -> bool {
     forall|i: int, j: int| 0 <= i < j < s.len() ==> (#[trigger] s[i]).endpoint != (#[trigger] s[j]).endpoint
 }
 // ... and no stored counter is above 255 (the largest configurable limit), so `+= 1` cannot overflow
-pub open spec fn counts_ok<E: Display>(s: Seq<Observer<E>>) -> bool { forall|i: int| 0 <= i < s.len() ==> (#[trigger] s[i]).unacknowledged_messages <= 255 }
+// ... and no stored counter is above the configured limit (<= 255) between operations - a round drops whoever exceeds it, registration and
+// acknowledgement reset to 0 - so `+= 1` cannot overflow.  (The limit is fixed per history: C14/C15 quantify over histories of
+// registrations, deregistrations, rounds and acknowledgements, not over reconfiguration in the middle.)
+pub open spec fn counts_ok<E: Display>(s: Seq<Observer<E>>, lim: u8) -> bool { forall|i: int| 0 <= i < s.len() ==> (#[trigger] s[i]).unacknowledged_messages <= lim }
 pub open spec fn wf<E: Display + PartialEq>(sub: Subject<E>) -> bool {
-    forall|p: String| sub.resources@.contains_key(p) ==> distinct_eps(#[trigger] sub.resources@[p].observers@) && counts_ok(sub.resources@[p].observers@)
+    forall|p: String| sub.resources@.contains_key(p) ==> distinct_eps(#[trigger] sub.resources@[p].observers@) && counts_ok(sub.resources@[p].observers@, sub.unacknowledged_limit)
 }
 pub open spec fn obs_of<E: Display + PartialEq>(sub: Subject<E>, p: String) -> Seq<Observer<E>> {
     if sub.resources@.contains_key(p) { sub.resources@[p].observers@ } else { Seq::empty() }
@@ -261,11 +264,11 @@ def build(repo):
         proof {
             assert(old_s == obs_of(*old(self), request.path));
             assert(observer.endpoint == ep);
-            assert(distinct_eps(old_s) && counts_ok(old_s));
+            assert(distinct_eps(old_s) && counts_ok(old_s, old(self).unacknowledged_limit));
         }''')
     u.at_block_end((S, 'register'), r'if let Some\(position\) = vec_position', '''            proof {
                 let new_s = resource.observers@;
-                assert(counts_ok(new_s)) by { assert forall|i: int| 0 <= i < new_s.len() implies (#[trigger] new_s[i]).unacknowledged_messages <= 255 by { if i != position { assert(new_s[i] == old_s[i]); } } }
+                assert(counts_ok(new_s, old(self).unacknowledged_limit)) by { assert forall|i: int| 0 <= i < new_s.len() implies (#[trigger] new_s[i]).unacknowledged_messages <= old(self).unacknowledged_limit by { if i != position { assert(new_s[i] == old_s[i]); } } }
                 assert(first_with_ep(old_s, ep, position as int));
                 assert(fresh_obs(new_s[position as int], ep, tok));
                 assert(registered(old_s, new_s, ep, tok));
@@ -279,7 +282,7 @@ def build(repo):
             }''')
     u.at_block_end((S, 'register'), r'if let Some\(position\) = vec_position', which='else', text='''            proof {
                 let new_s = resource.observers@;
-                assert(counts_ok(new_s)) by { assert forall|i: int| 0 <= i < new_s.len() implies (#[trigger] new_s[i]).unacknowledged_messages <= 255 by { if i < old_s.len() { assert(new_s[i] == old_s[i]); } } }
+                assert(counts_ok(new_s, old(self).unacknowledged_limit)) by { assert forall|i: int| 0 <= i < new_s.len() implies (#[trigger] new_s[i]).unacknowledged_messages <= old(self).unacknowledged_limit by { if i < old_s.len() { assert(new_s[i] == old_s[i]); } } }
                 assert forall|i: int| 0 <= i < old_s.len() implies (#[trigger] old_s[i]).endpoint != ep by { }
                 assert(fresh_obs(new_s[new_s.len() - 1], ep, tok));
                 assert(registered(old_s, new_s, ep, tok));
@@ -291,7 +294,7 @@ def build(repo):
                 }
             }''')
     u.body_end((S, 'register'), '''        proof {
-            assert forall|p: String| self.resources@.contains_key(p) implies distinct_eps(#[trigger] self.resources@[p].observers@) && counts_ok(self.resources@[p].observers@) by {
+            assert forall|p: String| self.resources@.contains_key(p) implies distinct_eps(#[trigger] self.resources@[p].observers@) && counts_ok(self.resources@[p].observers@, self.unacknowledged_limit) by {
                 if p != request.path { assert(old(self).resources@.contains_key(p)); assert(self.resources@[p] == old(self).resources@[p]); }
             }
         }''')
@@ -318,7 +321,7 @@ def build(repo):
                 assert(resource_path == request.path);
                 assert(old(self).resources@.contains_key(request.path));
                 assert(old_s == old(self).resources@[request.path].observers@);
-                assert(distinct_eps(old_s) && counts_ok(old_s));
+                assert(distinct_eps(old_s) && counts_ok(old_s, old(self).unacknowledged_limit));
             }''')
     u.at_block_end((S, 'deregister'), r'if let Some\(position\) = position', '''                proof {
                     let new_s = resource.observers@;
@@ -326,7 +329,7 @@ def build(repo):
                     assert forall|i: int| 0 <= i < new_s.len() implies old_s.contains(#[trigger] new_s[i]) by { let a = if i < position { i } else { i + 1 }; assert(new_s[i] == old_s[a]); }
                     assert(matches(old_s[position as int], ep, tok));
                     assert(deregistered(old_s, new_s, ep, tok));
-                    assert(counts_ok(new_s)) by { assert forall|i: int| 0 <= i < new_s.len() implies (#[trigger] new_s[i]).unacknowledged_messages <= 255 by { let a = if i < position { i } else { i + 1 }; assert(new_s[i] == old_s[a]); } }
+                    assert(counts_ok(new_s, old(self).unacknowledged_limit)) by { assert forall|i: int| 0 <= i < new_s.len() implies (#[trigger] new_s[i]).unacknowledged_messages <= old(self).unacknowledged_limit by { let a = if i < position { i } else { i + 1 }; assert(new_s[i] == old_s[a]); } }
                     assert(distinct_eps(new_s)) by {
                         assert forall|i: int, j: int| 0 <= i < j < new_s.len() implies (#[trigger] new_s[i]).endpoint != (#[trigger] new_s[j]).endpoint by {
                             let a = if i < position { i } else { i + 1 }; let b = if j < position { j } else { j + 1 };
@@ -335,7 +338,7 @@ def build(repo):
                     }
                 }''')
     u.body_end((S, 'deregister'), '''        proof {
-            assert forall|p: String| self.resources@.contains_key(p) implies distinct_eps(#[trigger] self.resources@[p].observers@) && counts_ok(self.resources@[p].observers@) by {
+            assert forall|p: String| self.resources@.contains_key(p) implies distinct_eps(#[trigger] self.resources@[p].observers@) && counts_ok(self.resources@[p].observers@, self.unacknowledged_limit) by {
                 if p != request.path { assert(old(self).resources@.contains_key(p)); assert(self.resources@[p] == old(self).resources@[p]); }
             }
         }''')
@@ -358,7 +361,7 @@ def build(repo):
             wf(*final(self))''')
     u.body_start((S, 'resource_changed'), '        broadcast use axiom_entry_resolved;')
     RC = (S, 'resource_changed')
-    u.closure(RC, r'\|observer\|', 'observer: &Observer<Endpoint>', 'b: bool', 'ensures b == (observer.unacknowledged_messages as int <= unacknowledged_limit as int)', nth=1, count=2)
+    u.closure(RC, r'\|observer\|', 'observer: &Observer<Endpoint>', 'b: bool', 'requires !is_confirmable ==> observer.unacknowledged_messages as int <= unacknowledged_limit as int ensures b == (observer.unacknowledged_messages as int <= unacknowledged_limit as int)', nth=1, count=2)
     u.replace_in(RC, 'R18:closure-contract(for_each)', r'\|observer\| \{',
                  '''|observer: &mut Observer<Endpoint>|
                     requires observer.unacknowledged_messages <= 255
@@ -366,15 +369,16 @@ def build(repo):
                 {''')
     u.replace_in(RC, 'R18:closure-contract(and_modify)', r'\|resource\| \{',
                  '''|resource: &mut Resource<Endpoint>|
-                requires resource.sequence < u32::MAX, distinct_eps(resource.observers@), counts_ok(resource.observers@)
+                requires resource.sequence < u32::MAX, distinct_eps(resource.observers@), counts_ok(resource.observers@, unacknowledged_limit)
                 ensures final(resource).sequence == old(resource).sequence + 1,
                     final(resource).observers@ == kept(notified(old(resource).observers@, message_id, is_confirmable), unacknowledged_limit),
-                    distinct_eps(final(resource).observers@), counts_ok(final(resource).observers@)
+                    distinct_eps(final(resource).observers@), counts_ok(final(resource).observers@, unacknowledged_limit)
             {
                 let ghost s0 = resource.observers@;''')
     u.before(RC, r'resource\.observers\.retain\(', '''                let ghost s1 = resource.observers@;
                 proof {
                     assert(s1 =~= notified(s0, message_id, is_confirmable));
+                    assert forall|i: int| 0 <= i < s1.len() && !is_confirmable implies (#[trigger] s1[i]).unacknowledged_messages as int <= unacknowledged_limit as int by { assert(s1[i] == bump(s0[i], message_id, is_confirmable)); }
                 }''')
     u.after_stmt(RC, r'resource\.observers\.retain\(', '''                proof {
                     let s2 = resource.observers@;
@@ -386,10 +390,10 @@ def build(repo):
                         assert forall|i: int, j: int| 0 <= i < j < s1.len() implies (#[trigger] s1[i]).endpoint != (#[trigger] s1[j]).endpoint by { assert(s0[i].endpoint != s0[j].endpoint); }
                     }
                     lemma_filter_distinct(s1, |o: Observer<Endpoint>| o.unacknowledged_messages as int <= unacknowledged_limit as int);
-                    assert(counts_ok(s2)) by {
-                        assert forall|i: int| 0 <= i < s2.len() implies (#[trigger] s2[i]).unacknowledged_messages <= 255 by {
-                            let j = choose|j: int| 0 <= j < s1.len() && s1[j] == s2[i];
-                            assert(s1.filter(|o: Observer<Endpoint>| o.unacknowledged_messages as int <= unacknowledged_limit as int).contains(s2[i]));
+                    assert(counts_ok(s2, unacknowledged_limit)) by {
+                        let kp = |o: Observer<Endpoint>| o.unacknowledged_messages as int <= unacknowledged_limit as int;
+                        assert forall|i: int| 0 <= i < s2.len() implies (#[trigger] s2[i]).unacknowledged_messages <= unacknowledged_limit by {
+                            assert(kp(s1.filter(kp)[i]));
                         }
                     }
                 }''')
@@ -398,11 +402,12 @@ def build(repo):
     s_, p_, bo_, bc_ = u._fn_span(AK)
     has_break = re.search(r'(?<![A-Za-z0-9_])break\s*;', s_.code[bo_:bc_]) is not None
     u.replace_in(AK, 'R30:for-iter_mut', r'for \(resource_path, resource\) in self\.resources\.iter_mut\(\) \{',
-                 '''%s(&mut self.resources, |resource_path: &String, resource: &mut Resource<Endpoint>|%s
-                requires distinct_eps(resource.observers@), counts_ok(resource.observers@)
+                 '''let ghost lim = self.unacknowledged_limit;
+            %s(&mut self.resources, |resource_path: &String, resource: &mut Resource<Endpoint>|%s
+                requires distinct_eps(resource.observers@), counts_ok(resource.observers@, lim)
                 ensures final(resource).sequence == old(resource).sequence,
                     acked(old(resource).observers@, final(resource).observers@, *observer_endpoint, message_id),
-                    distinct_eps(final(resource).observers@), counts_ok(final(resource).observers@)
+                    distinct_eps(final(resource).observers@), counts_ok(final(resource).observers@, lim)
             {
             let ghost s0 = resource.observers@;''' % (('btree_for_each_mut_until', ' -> (stop: bool)') if has_break else ('btree_for_each_mut', '')))
     # the loop's closing brace becomes the end of the closure and of the call
